@@ -163,6 +163,9 @@ class Affine:
                     return Form.atom(("arg", l))
                 return Form.atom(("sym", render(self.sym.local(l)), l))
             return None
+        fk0 = self._field_key(p)
+        if fk0 is not None and fk0 in st and "(" in self.b.local_ty(l):
+            return st[fk0]     # slot of a tuple built on this path
         # (sum, overflow) tuples
         if len(proj) == 1 and isinstance(proj[0], dict) and proj[0].get("f") == "0" and ("L", l) in st and "(" in self.b.local_ty(l):
             return st[("L", l)]
@@ -171,6 +174,17 @@ class Affine:
         fk = self._field_key(p)
         if fk is not None and fk in st:
             return st[fk]
+        # through a closure environment / a reference held in a temporary: `(env.self).body_length` is `h.body_length`
+        try:
+            rp = self.resolve_place(p)
+        except Exception:
+            rp = None
+        if rp is not None and rp != p:
+            fk2 = self._field_key(rp)
+            if fk2 is not None and fk2 in st:
+                return st[fk2]
+            if not [e_ for e_ in rp["p"] if e_ != "deref"] and ("L", rp["l"]) in st and self._is_int(self.b.local_ty(rp["l"])):
+                return st[("L", rp["l"])]       # resolved all the way to the integer the literal was built from
         return Form.atom(("sym", render(e)))
 
     def _is_int(self, ty):
@@ -333,6 +347,10 @@ class Affine:
                         st[("reslen", l)] = st[("reslen", src)]
                 if not p["p"] and src in self.call_info:
                     self.alias[l] = src
+                if not p["p"]:
+                    # a whole-value move carries the known fields along
+                    for k_ in [k_ for k_ in st if k_[0] == "F" and k_[1] == src]:
+                        st[("F", l, k_[2])] = st[k_]
                 if not p["p"] and ("len", ("L", src)) in st and self.b.local_ty(l) == self.b.local_ty(src):
                     st[("len", ("L", l))] = st[("len", ("L", src))]
         elif "ref" in rv and not [e for e in rv["ref"]["p"] if e != "deref"]:
@@ -363,6 +381,19 @@ class Affine:
                     f = a.sub(bf)
                 elif op in ("Mul", "MulWithOverflow") and (a.is_const() or bf.is_const()):
                     f = bf.scale(a.c) if a.is_const() else a.scale(bf.c)
+        elif "agg" in rv and rv["agg"] == "adt" and rv.get("fields") and not rv.get("variant") or \
+                ("agg" in rv and rv["agg"] == "adt" and rv.get("fields") and rv["adt"] not in ("std::option::Option", "std::result::Result") and len(rv["fields"]) > 1):
+            # a struct literal: its integer fields are known from now on (read back later through `local.field`)
+            for fn_, op_ in zip(rv["fields"], rv["ops"]):
+                fv = self.op_form(st, op_)
+                if fv is not None:
+                    st[("F", l, str(fn_))] = fv
+        elif rv.get("agg") == "tuple" and rv.get("ops"):
+            # a tuple (the argument pack of a closure call, a pair built for a match): its integer slots are known
+            for k_, op_ in enumerate(rv["ops"]):
+                fv = self.op_form(st, op_)
+                if fv is not None:
+                    st[("F", l, str(k_))] = fv
         elif "agg" in rv and rv["agg"] == "adt" and rv["adt"] == "std::option::Option" and rv["variant"] == "Some":
             x = self.op_form(st, rv["ops"][0])
             if x is not None:
@@ -627,6 +658,21 @@ class Affine:
                 if "ref" in rv and (not proj or proj[0] == "deref"):
                     l, proj = rv["ref"]["l"], list(rv["ref"]["p"]) + (proj[1:] if proj else [])
                     continue
+                if rv.get("agg") in ("closure", "coroutine") and proj and isinstance(proj[0], dict) and proj[0].get("f") in (rv.get("fields") or []):
+                    # a captured variable of a closure value built here: `env.self` is whatever was captured
+                    src = op_place(rv["ops"][rv["fields"].index(proj[0]["f"])])
+                    if src is None:
+                        break
+                    l, proj = src["l"], list(src["p"]) + proj[1:]
+                    continue
+                if rv.get("agg") == "adt" and var is None and proj and isinstance(proj[0], dict) and proj[0].get("f") in (rv.get("fields") or []) \
+                        and rv.get("adt") not in ("std::option::Option", "std::result::Result"):
+                    # a field of a struct literal built here
+                    src = op_place(rv["ops"][rv["fields"].index(proj[0]["f"])])
+                    if src is None:
+                        break
+                    l, proj = src["l"], list(src["p"]) + proj[1:]
+                    continue
                 break
             if d[0] != "call":
                 break
@@ -727,7 +773,25 @@ class Affine:
     def _describe_switch(self, st, bb, t):
         b = self.b
         p = op_place(t["on"])
-        if p is None or p["p"]:
+        if p is None:
+            return
+        # the tested bool may be a copy, or one slot of a tuple built just for the match: `match (a == x, b == y)`
+        for _ in range(6):
+            defs = b.defs_of(p["l"])
+            if len(defs) != 1 or defs[0][0] != "assign":
+                break
+            rv0 = defs[0][3]
+            if not p["p"] and ("use" in rv0) and op_place(rv0["use"]) is not None and b.local_ty(p["l"]) == "bool":
+                p = op_place(rv0["use"])
+                continue
+            if len(p["p"]) == 1 and isinstance(p["p"][0], dict) and str(p["p"][0].get("f", "")).isdigit() and rv0.get("agg") == "tuple":
+                q = op_place(rv0["ops"][int(p["p"][0]["f"])])
+                if q is None:
+                    break
+                p = q
+                continue
+            break
+        if p["p"]:
             return
         defs = b.defs_of(p["l"])
         if len(defs) != 1:
